@@ -121,3 +121,7 @@ impl defmt::Format for PacketHdr {
         defmt::write!(f, "[{}][{}]", self.plain, self.proto)
     }
 }
+
+#[cfg(any(kani, verif_replay))]
+#[path = "/verif/kani/packet.rs"]
+pub(crate) mod verif_kani_packet;
